@@ -3,4 +3,5 @@ let () =
   let ic = if Array.length Sys.argv > 2 then open_in Sys.argv.(2) else stdin in
   match mode with
   | "syntax" -> Syntax.run_syntax ic
+  | "hash" -> Hashmodel.run_hash ic
   | m -> prerr_endline ("unknown mode " ^ m); exit 2
